@@ -81,6 +81,7 @@ func init() {
 		was := tk.armed && !tk.stopped
 		tk.stopped = true
 		tk.armed = false
+		tk.ch.Buf = nil // Go 1.23: no stale tick is received after Stop
 		if tk.isTimer {
 			return e.C.Bool(was), false
 		}
@@ -94,6 +95,7 @@ func init() {
 		was := tk.armed && !tk.stopped
 		tk.stopped = false
 		tk.armed = true
+		tk.ch.Buf = nil // Go 1.23: no stale tick is received after Reset
 		tk.period = args[1].(*Term)
 		return e.C.Bool(was), false
 	})
